@@ -30,6 +30,7 @@ import (
 	"github.com/TarsCloud/TarsGo/tars/protocol/codec"
 	"github.com/TarsCloud/TarsGo/tars/protocol/res/basef"
 	"github.com/TarsCloud/TarsGo/tars/protocol/res/requestf"
+	tarsreg "github.com/TarsCloud/TarsGo/tars/registry"
 	"github.com/TarsCloud/TarsGo/tars/util/tools"
 )
 
@@ -56,6 +57,32 @@ func c08Communicator() *tars.Communicator {
 func c08Proxy(obj string, port int) *tars.ServantProxy {
 	comm := c08Communicator()
 	return tars.NewServantProxy(comm, fmt.Sprintf("%s@tcp -h 127.0.0.1 -p %d -t 60000", obj, port))
+}
+
+// a registrar that knows no endpoint for any object: calls on a proxy resolved through it are rejected by doInvoke with
+// 'no adapter Proxy selected' before anything is registered or sent
+type c08NoEndpoints struct{}
+
+func (c08NoEndpoints) Registry(ctx context.Context, servant *tarsreg.ServantInstance) error { return nil }
+func (c08NoEndpoints) Deregister(ctx context.Context, servant *tarsreg.ServantInstance) error {
+	return nil
+}
+func (c08NoEndpoints) QueryServant(ctx context.Context, id string) ([]tarsreg.Endpoint, []tarsreg.Endpoint, error) {
+	return nil, nil, nil
+}
+func (c08NoEndpoints) QueryServantBySet(ctx context.Context, id, set string) ([]tarsreg.Endpoint, []tarsreg.Endpoint, error) {
+	return nil, nil, nil
+}
+
+var (
+	c08NoEpOnce sync.Once
+	c08NoEpComm *tars.Communicator
+)
+
+func c08NoEpProxy(obj string) *tars.ServantProxy {
+	c08Communicator()
+	c08NoEpOnce.Do(func() { c08NoEpComm = tars.NewCommunicator(tars.Registrar(c08NoEndpoints{})) })
+	return tars.NewServantProxy(c08NoEpComm, obj)
 }
 
 // the pre client filter sees every request (with its id) just before doInvoke
@@ -126,6 +153,7 @@ type c08Ev struct {
 	Oneway bool    `json:"ow,omitempty"`
 	Got    bool    `json:"got,omitempty"`
 	IDs    []int32 `json:"ids,omitempty"` // snap: ids found in the pending-reply table at that moment
+	Ctr    int32   `json:"ctr"`           // every event: value of the id counter when the event was logged
 }
 
 type c08Case struct {
@@ -153,6 +181,7 @@ type c08Case struct {
 	Class     string   `json:"class"`
 	Skipped   bool     `json:"skipped,omitempty"` // not run (an earlier genRequestID case hung)
 	Push       bool   `json:"push,omitempty"`        // trace: proxy 0 has a push callback; id-0 packets on its connections must reach it
+	QueueMax   int    `json:"queue_max,omitempty"`   // trace: ObjQueueMax during the scenario (0 = default 100000): callers beyond it are rejected with 'invoke queue is full'
 	Pings      int    `json:"pings,omitempty"`       // trace: keep-alive pings triggered per proxy while each round is outstanding; the peer acknowledges them (echo of the id, normal type, poisoned payload)
 	PingAt     bool   `json:"ping_at,omitempty"`     // trace: position the id counter so that a call of the first round holds the id equal to the proxy's timeout in ms
 	NPings     int    `json:"npings,omitempty"`      // observed: ping requests the server received
@@ -274,8 +303,11 @@ type c08Log struct {
 	ev []c08Ev
 }
 
+// add appends an event together with the value of the process-wide id counter read under the log's lock: the counter
+// values appear in the log in the order in which they were read.
 func (l *c08Log) add(e c08Ev) {
 	l.mu.Lock()
+	e.Ctr = tars.VerifC08MsgID()
 	l.ev = append(l.ev, e)
 	l.mu.Unlock()
 }
@@ -420,6 +452,26 @@ func c08RunTrace(c *c08Case) []Failure {
 			defer c08SetHook(obj, nil)
 		}
 	}
+	var noepSp *tars.ServantProxy
+	for _, a := range c.Acts {
+		if a == "noep" && noepSp == nil {
+			obj := c08NextObj("C08NoEp")
+			noepSp = c08NoEpProxy(obj)
+			c08SetHook(obj, func(req *requestf.RequestPacket) {
+				b := tools.Int8ToByte(req.SBuffer)
+				if len(b) == 8 {
+					log.add(c08Ev{Kind: "reg", K: int(binary.BigEndian.Uint32(b)), ID: req.IRequestId, Oneway: req.CPacketType == basef.TARSONEWAY})
+				}
+			})
+			defer c08SetHook(obj, nil)
+		}
+	}
+	if c.QueueMax > 0 {
+		cfg := c08Communicator().Client
+		old := cfg.ObjQueueMax
+		cfg.ObjQueueMax = int32(c.QueueMax)
+		defer func() { cfg.ObjQueueMax = old }()
+	}
 	pendingIDs := func() []int32 {
 		var ids []int32
 		for _, sp := range sps {
@@ -549,7 +601,7 @@ func c08RunTrace(c *c08Case) []Failure {
 	var lateWg sync.WaitGroup
 	var doneList []int // callers known to have returned
 	patient := func(k int) bool {
-		return c.Acts[k] != "none" && c.Acts[k] != "late" && c.Acts[k] != "ow" && c.Acts[k] != "fail"
+		return c.Acts[k] != "none" && c.Acts[k] != "late" && c.Acts[k] != "ow" && c.Acts[k] != "fail" && c.Acts[k] != "noep"
 	}
 	replied := map[int]time.Time{} // callers the server has written the genuine reply to, and when
 	started := map[int]time.Time{}
@@ -575,6 +627,9 @@ func c08RunTrace(c *c08Case) []Failure {
 				sp, ptype := sps[k%nprox], byte(basef.TARSNORMAL)
 				if c.Acts[k] == "fail" {
 					sp = deadSp
+				}
+				if c.Acts[k] == "noep" {
+					sp = noepSp
 				}
 				if c.Acts[k] == "ow" {
 					ptype = byte(basef.TARSONEWAY)
@@ -619,10 +674,11 @@ func c08RunTrace(c *c08Case) []Failure {
 		deadline := time.After(4 * time.Second)
 		have, expect := 0, 0
 		for k := lo; k < hi; k++ {
-			if c.Acts[k] != "fail" {
+			if c.Acts[k] != "fail" && c.Acts[k] != "noep" {
 				expect++
 			}
 		}
+		tick := time.NewTicker(5 * time.Millisecond)
 	collect:
 		for have < expect {
 			select {
@@ -631,10 +687,37 @@ func c08RunTrace(c *c08Case) []Failure {
 					have++
 				}
 				reqs[s.k] = s
+			case <-tick.C:
+				if c.QueueMax > 0 { // callers rejected because the queue is full have come back without sending anything
+					gone := 0
+					for k := lo; k < hi; k++ {
+						if _, seenReq := reqs[k]; !seenReq && c.Acts[k] != "fail" && c.Acts[k] != "noep" {
+							select {
+							case <-ended[k]:
+								gone++
+							default:
+							}
+						}
+					}
+					if have+gone >= expect {
+						time.Sleep(20 * time.Millisecond) // requests still on their way
+						for {
+							select {
+							case s := <-reqCh:
+								reqs[s.k] = s
+								continue
+							default:
+							}
+							break
+						}
+						break collect
+					}
+				}
 			case <-deadline:
 				break collect
 			}
 		}
+		tick.Stop()
 		// snapshot of the pending-reply table while the round's calls are outstanding: a call whose request the server
 		// has seen and that cannot end yet (8 s deadline, nothing sent to it) must have its entry under its own id
 		snap := pendingIDs()
@@ -654,6 +737,9 @@ func c08RunTrace(c *c08Case) []Failure {
 			}
 		}
 		oneConn := len(usedConn) > 0 && len(usedConn) == len(usedProx) // one connection per proxy in use
+		if c.QueueMax > 0 && round == 0 {
+			oneConn = false // the creator of the adapter the endpoint manager kept may be among the rejected callers
+		}
 		for k := lo; k < hi && oneConn; k++ {
 			if s, ok := reqs[k]; ok && patient(k) && !inSnap[s.id] {
 				fs = append(fs, Failure{Sig: "call/outstanding-call-has-no-entry", Desc: fmt.Sprintf("caller %d is outstanding with request id %d (request seen by the server, no reply sent, deadline far away) but the pending-reply table holds only %v", k, s.id, snap)})
@@ -740,7 +826,7 @@ func c08RunTrace(c *c08Case) []Failure {
 				genuine()
 			case "ow": // a one-way request is never answered; a peer that echoes it anyway (same id, poisoned payload) must reach nobody
 				send(s.conn, s.id, c08Payload(c08Poison, uint32(k)), false)
-			case "fail": // never arrives
+			case "fail", "noep": // never arrives
 			case "fcross": // this call's id, poisoned payload, on another connection of the process (if there is one)
 				cmu.Lock()
 				var other net.Conn
@@ -880,8 +966,19 @@ func c08RunTrace(c *c08Case) []Failure {
 			}
 		}
 	}
-	if wantedPings > 0 && c.NPings == 0 {
+	if wantedPings > 0 && c.NPings == 0 && c.QueueMax == 0 { // (doKeepAlive itself stands back while the queue is full)
 		fs = append(fs, Failure{Sig: "ping/no-ping-on-wire", Desc: fmt.Sprintf("%d keep-alive pings per proxy and round were triggered (%d doKeepAlive calls) but the scripted server received none", c.Pings, wantedPings)})
+	}
+	// the id counter only moves forward (a drawn id is never handed back); it falls only at the wrap
+	{
+		maxi := int64(tars.VerifC08MaxInt32())
+		for i := 1; i < len(c.Events); i++ {
+			a, b := int64(c.Events[i-1].Ctr), int64(c.Events[i].Ctr)
+			if b < a && !(a > maxi-(1<<20) && (b < 0 || b < (1<<20))) {
+				fs = append(fs, Failure{Sig: "genRequestID/counter-moved-backwards", Desc: fmt.Sprintf("the process-wide request id counter read %d and later %d (events %d and %d of the scenario, read under one lock): ids that were drawn have been handed back", a, b, i-1, i)})
+				break
+			}
+		}
 	}
 	wireMu.Lock()
 	c.Wire = append([]int32(nil), wire...)
@@ -1243,7 +1340,13 @@ func c08Coq(c *c08Case) string {
 			}
 		}
 	}
-	return fmt.Sprintf("KTrace ((%d%%nat, %s, %s, %s, %s, ([%s], [%s])), %s, %s)", nad, ls, outs, snaps, c08Zs(c.Pending), strings.Join(pads, "; "), strings.Join(pushes, "; "), c08Zs(c.Wire), pings)
+	var ctrs []int32 // readings of the id counter, consecutive repetitions dropped
+	for _, e := range c.Events {
+		if len(ctrs) == 0 || ctrs[len(ctrs)-1] != e.Ctr {
+			ctrs = append(ctrs, e.Ctr)
+		}
+	}
+	return fmt.Sprintf("KTrace ((%d%%nat, %s, %s, %s, %s, ([%s], [%s])), %s, %s, %s)", nad, ls, outs, snaps, c08Zs(c.Pending), strings.Join(pads, "; "), strings.Join(pushes, "; "), c08Zs(c.Wire), pings, c08Zs(ctrs))
 }
 
 func c08Gen(tier string, rng *rand.Rand) []c08Case {
@@ -1307,7 +1410,7 @@ func c08Gen(tier string, rng *rand.Rand) []c08Case {
 			sizes = append(sizes, 1, 4, 4, 32, 32, 256, 8, 64, 128, 2, 16)
 		}
 	}
-	kinds := []string{"reply", "dup", "none", "late", "f0", "funk", "oneway", "fdone", "fcross", "ow", "ow", "fail"}
+	kinds := []string{"reply", "dup", "none", "late", "f0", "funk", "oneway", "fdone", "fcross", "ow", "ow", "fail", "noep"}
 	for si, n := range sizes {
 		c := c08Case{Kind: "trace", N: n, TimeoutMs: 150 + rng.Intn(200)}
 		// rounds on the same proxy and connection: replies to one round's calls (late, duplicated) arrive during the next
@@ -1403,13 +1506,49 @@ func c08Gen(tier string, rng *rand.Rand) []c08Case {
 		c.Class = fmt.Sprintf("trace-dupchain/n%d/p%d/g%d", n, c.Proxies, c.Procs)
 		cs = append(cs, c)
 	}
+	// rejected calls interleaved with outstanding ones: more concurrent callers than ObjQueueMax admits ('invoke queue is
+	// full', whoever comes late) and callers on a proxy without a selectable endpoint ('no adapter Proxy selected'); a
+	// rejected call has drawn an id — it is never handed back
+	nrj := 3
+	if tier == "thorough" {
+		nrj = 12
+	}
+	for i := 0; i < nrj; i++ {
+		n := []int{16, 32, 8, 64, 24, 12}[i%6]
+		c := c08Case{Kind: "trace", N: n, Rounds: 2, Proxies: 1 + i%2, TimeoutMs: 150 + rng.Intn(150), QueueMax: 1 + rng.Intn(n/4+1), Follow: true, Pings: i % 2}
+		if tier == "thorough" {
+			c.Procs = []int{0, 2, 4, 1}[i%4]
+		}
+		used := map[string]bool{}
+		rk := []string{"reply", "reply", "dup", "none", "noep", "late", "reply", "ow", "noep"}
+		for k := 0; k < n*c.Rounds; k++ {
+			a := rk[rng.Intn(len(rk))]
+			c.Acts = append(c.Acts, a)
+			used[a] = true
+		}
+		for r := 0; r < c.Rounds; r++ {
+			for _, k := range rng.Perm(n) {
+				c.Order = append(c.Order, r*n+k)
+			}
+		}
+		if i%3 == 1 {
+			c.SetID, c.Start = true, int32(-1-rng.Intn(n))
+		}
+		var ks []string
+		for a := range used {
+			ks = append(ks, a)
+		}
+		sort.Strings(ks)
+		c.Class = fmt.Sprintf("trace-reject/n%d/q%d/p%d/g%d/%s", n, c.QueueMax, c.Proxies, c.Procs, strings.Join(ks, "+"))
+		cs = append(cs, c)
+	}
 	// scenarios with registered pass-through client filters (child process each): calls that succeed, time out, fail in
 	// doInvoke, one-way calls — the outcome at the call site must be the own reply or an error
 	nf := 1
 	if tier == "thorough" {
 		nf = 4
 	}
-	fkinds := []string{"reply", "none", "fail", "late", "ow", "dup", "reply", "none", "fail", "f0", "oneway"}
+	fkinds := []string{"reply", "none", "fail", "late", "ow", "dup", "reply", "none", "fail", "f0", "oneway", "noep"}
 	for i := 0; i < nf; i++ {
 		for _, mode := range []string{"prepost", "cf", "mw"} {
 			n := []int{4, 8, 16, 32}[rng.Intn(4)]
@@ -1475,6 +1614,10 @@ func init() {
 					}
 					if cs[i].Kind == "wrap" {
 						fails[i] = c08RunWrap(&cs[i])
+					} else if os.Getenv("C08_TIMING") != "" && cs[i].Kind == "trace" && cs[i].Filters == "" {
+						t0 := time.Now()
+						fails[i] = c08RunTrace(&cs[i])
+						fmt.Fprintf(os.Stderr, "%6.2fs %s\n", time.Since(t0).Seconds(), cs[i].Class)
 					} else if cs[i].Kind == "trace" && cs[i].Filters != "" {
 						fails[i] = c08RunChild(&cs[i], a.Out)
 					} else if cs[i].Kind == "trace" {
